@@ -3,7 +3,7 @@
 export GOFLAGS=-mod=mod GOPROXY=off GOSUMDB=off GOTOOLCHAIN=local
 set -e
 mkdir -p /tmp/vout; rm -f /tmp/vout/*.json /tmp/vout/*.progress
-cd /verif/sim && cp /repo/go.sum . && go1.26.8 test -c -tags verif -o /tmp/vout/sim.test . 
+cd /verif/sim && cp /repo/go.sum . && go1.26.8 test -c -tags verif -overlay /verif/overlay/overlay.json -o /tmp/vout/sim.test . 
 cd /tmp/vout
 VERIF_FENCES=${FENCES:-} VERIF_KNOWN=${KNOWN:-} VERIF_PROP=$1 VERIF_SEED=${3:-1} VERIF_RUNS=${2:-50} VERIF_BUDGET_S=${BUDGET:-120} VERIF_OUT=/tmp/vout GOMAXPROCS=1 ./sim.test -test.run TestEngine -test.timeout 0 2>&1 | tail -5
 python3 - <<'PY'
